@@ -164,6 +164,8 @@ Pre(s, op, a) ==
     [] op = "construct" -> a.x \in Names /\ a.k \in {"s", "m"} /\ a.price >= 0 /\ a.cf >= 0
     \* C14: reading a derived property (an observation; the value is compared with a freshly built stream)
     [] op = "read" -> a.x \in Names /\ ~Empty(t[a.x])
+    \* property-package change: the flows are carried over chemical by chemical
+    [] op = "reset_thermo" -> a.x \in Names /\ a.pkg \in Pkgs /\ Alone(t, a.x) /\ \A c \in 1..NC : Tot(t[a.x])[c] # 0 => c \in PkgChems[a.pkg]
     [] OTHER -> FALSE
 
 Exc(s, op, a) == None
@@ -204,6 +206,7 @@ Post(s, op, a) ==
     [] op = "view_write" -> [s EXCEPT !.st = PutFlow(t, a.x, [t[a.x].fl EXCEPT ![a.p][a.c] = a.v])]
     [] op = "view_read" -> s
     [] op = "read" -> s
+    [] op = "reset_thermo" -> [s EXCEPT !.st[a.x].pkg = a.pkg]
     [] op = "set_T" -> [s EXCEPT !.st = PutTP(t, a.x, a.T, t[a.x].P)]
     [] op = "view_set_T" -> [s EXCEPT !.st = PutTP(t, a.x, a.T, t[a.x].P)]
     [] op = "set_P" -> [s EXCEPT !.st = PutTP(t, a.x, t[a.x].T, a.P)]
@@ -231,7 +234,9 @@ Post(s, op, a) ==
     [] op = "restore" -> LET n == s.sv[a.x] IN
                          [s EXCEPT !.st[a.x] = [t[a.x] EXCEPT !.k = n.k, !.ph = n.ph, !.fl = n.fl, !.T = n.T, !.P = n.P]]
     [] op \in {"copy", "pickle"} ->
+         \* (a pickled multi-phase stream that lists a single phase comes back as a single-phase stream)
          [s EXCEPT !.st = Normalize([t EXCEPT ![a.d] = [t[a.x] EXCEPT !.fr = Fresh(a.d), !.tr = Fresh(a.d), !.pr = Fresh(a.d),
+                                                              !.k = IF op = "pickle" /\ Len(t[a.x].ph) = 1 THEN "s" ELSE @,
                                                               !.price = IF op = "pickle" THEN t[a.x].price ELSE 0,
                                                               !.cf = IF op = "pickle" THEN t[a.x].cf ELSE 0]]),
                    !.sv[a.d] = NoSnap]
